@@ -73,7 +73,7 @@ def manual_vs(kind, params, r):
 VS_KINDS = {"2": ("virtual_sites2", "1", 2, [(0.3,), (0.5,), (1.2,)]),
             "3": ("virtual_sites3", "1", 3, [(0.2, 0.3), (0.5, 0.5), (-0.2, 0.7)]),
             "3fd": ("virtual_sites3", "2", 3, [(0.4, 0.1), (0.7, 0.25)]),
-            "3fad": ("virtual_sites3", "3", 3, [(120.0, 0.1), (60.0, 0.2)]),
+            "3fad": ("virtual_sites3", "3", 3, [(120.0, 0.1), (60.0, 0.2), (-120.0, 0.2), (240.0, 0.15), (-60.0, 0.1)]),     # angles in the lower half plane too
             "3out": ("virtual_sites3", "4", 3, [(0.2, 0.3, 1.5), (-0.4, 0.1, -2.0)]),
             "4fdn": ("virtual_sites4", "2", 4, [(0.5, 0.6, 0.1), (1.2, 0.8, -0.15)]),
             "n": ("virtual_sitesn", "1", 3, [()])}
